@@ -14,7 +14,6 @@ package main
 import (
 	"encoding/json"
 	"fmt"
-	"os"
 	"runtime"
 	"strings"
 	"sync"
@@ -253,6 +252,9 @@ func c05Execute(in c05In) *c05Trace {
 			}
 		}
 		q1, busy, closed := ops.Snapshot()
+		if ops.IsEmpty() != (q1 == 0) {
+			fail("isempty-disagrees-with-queue", fmt.Sprintf("IsEmpty()=%v with %d queued", ops.IsEmpty(), q1))
+		}
 		mu.Lock()
 		op := pending
 		ranNow := append([]int(nil), ranLog...)
@@ -511,18 +513,6 @@ type c05Config struct {
 	progs [][2]int
 }
 
-func c05Tier() string {
-	for i, a := range os.Args {
-		if a == "--tier" && i+1 < len(os.Args) {
-			return os.Args[i+1]
-		}
-		if strings.HasPrefix(a, "--tier=") {
-			return a[len("--tier="):]
-		}
-	}
-	return "quick"
-}
-
 func c05Shrink(in c05In) []c05In {
 	var out []c05In
 	for i := range in.Sched {
@@ -560,7 +550,7 @@ func init() {
 				{0, [][2]int{{0, 0}, {3, 0}, {2, 0}}},
 				{-1, [][2]int{{0, 0}, {1, 0}, {2, 0}}}, // the configuration of the repaired defect
 			}
-			if c05Tier() == "thorough" {
+			if argTier() == "thorough" {
 				cfgs = append(cfgs,
 					c05Config{-1, [][2]int{{0, 0}, {0, 0}, {1, 0}}},
 					c05Config{-1, [][2]int{{0, 1}, {1, 0}, {2, 0}}},
